@@ -81,6 +81,25 @@ def deliveries(rng, lines, quic, thorough, big=False):
         return f"{a} {b} {c}"
     for which in ("random", "secret", "both", "mixed"):
         out.append((f"uppercase-hex-{which}", text([upcase(l, which) for l in L]), [], {}))
+    # a long key log in which one of the connection's own lines straddles a power-of-two offset of the file (whatever a reader's block size is: 4 KiB pages, 8 KiB
+    # and 64 KiB buffers): unrelated complete lines and a comment line in front of it are sized so that the boundary falls inside the label, inside the client random,
+    # right after it, and inside the secret after an even and an odd number of digits
+    def unrelated():
+        return "CLIENT_RANDOM " + rng.randbytes(32).hex() + " " + rng.randbytes(48).hex()
+    for B in ((4096, 8192, 65536) if thorough else (rng.choice([4096, 8192]), 65536)):
+        for li in ([0, len(L) - 1] if thorough and len(L) > 1 else [rng.randrange(len(L))]):
+            own = L[li]
+            lab = len(own.split(" ")[0])
+            for off in sorted({1, lab + 1 + 10, lab + 1 + 64, lab + 66 + 2, lab + 66 + 7, lab + 66 + rng.randrange(8, 60) * 2, len(own) - 1} if thorough else {lab + 66 + 2 * rng.randrange(1, 30), lab + 66 + 7, rng.randrange(1, lab + 66)}):
+                want = B - off               # octets in front of the line
+                pre = []
+                while want - sum(len(x) + 1 for x in pre) > 400:
+                    pre.append(unrelated())
+                rest_ = want - sum(len(x) + 1 for x in pre)
+                pre.append("#" + "-" * (rest_ - 2))
+                body = pre + [own] + [l for j, l in enumerate(L) if j != li]
+                assert len(("\n".join(pre) + "\n").encode()) == want
+                out.append((f"file-line-straddles-{B}", text(body), [], {}))
     # DSB deliveries
     out.append(("dsb-before", None, [("before", text(L))], {}))
     out.append(("dsb-before+file", text(L[: len(L) // 2]) if len(L) > 1 else b"\n", [("before", text(L[len(L) // 2:]))], {}))
